@@ -65,6 +65,8 @@ def _opaque_digest(o):
             arr = o.get_array()
             return _crc(repr((len(o.get_paths()), tuple(np.atleast_1d(o.get_linewidth()).tolist()),
                               None if arr is None else _digest(np.asarray(arr)))).encode())
+        if name in ("BallTree", "KDTree") and (type(o).__module__ or "").startswith("sklearn"):
+            return _digest(np.asarray(o.data))
     except Exception:
         pass
     return 0
@@ -236,7 +238,16 @@ class Graph:
         a = self._node(o, "obj:" + type(o).__name__)
         if a not in seen:
             seen[a] = True
-            self.cells[a] = (_opaque_digest(o), {})
+            refs, imm = {}, []
+            if (type(o).__module__ or "").startswith("uxarray") and hasattr(o, "__dict__"):
+                # helper objects the library caches on a grid (BallTree, KDTree, …): their fields are state too,
+                # in particular the reference back to the grid they were built from
+                for k, v in sorted(vars(o).items()):
+                    if _is_imm(v):
+                        imm.append((k, repr(v)))
+                    else:
+                        refs[self.key(k)] = self._walk(v, seen)
+            self.cells[a] = (_crc(repr((_opaque_digest(o), imm)).encode()), refs)
         return a
 
 
@@ -744,6 +755,27 @@ DERIVE_SLOW = ["face_areas", "edge_face_distances"]
 MUT_MODEL = dict(derive=0, setter=0, face_centers=0, chunk=0, write=1, normalize=2, attr=3, gattr=4)
 
 
+TREE_KINDS = ["nodes", "face centers", "edge centers"]
+# calls that fill (or switch in place) the lazily built helper objects cached on a grid
+CACHE_OPS = ([("tree", f"{t}:{k}") for t in ("ball", "kd") for k in TREE_KINDS]
+             + [("subset", f"{q}:{k}") for q in ("nn", "circle") for k in TREE_KINDS]
+             + [("geo", "gdf"), ("geo", "poly"), ("geo", "line"), ("remap", "")])
+CACHE_KEY = dict(ball=5, kd=6, gdf=1, line=2, poly=3)
+CACHE_ATTR = dict(ball="_ball_tree", kd="_kd_tree")
+
+
+def model_kind(g, kind, name):
+    """(model mutation kind, model variable / cache key) of a public call, decided BEFORE the call"""
+    if kind == "tree":
+        t = name.split(":")[0]
+        return (7 if vars(g).get(CACHE_ATTR[t]) is None else 8), CACHE_KEY[t]
+    if kind in ("subset", "remap"):
+        return (7 if vars(g).get("_ball_tree") is None else 8), CACHE_KEY["ball"]
+    if kind == "geo":
+        return 7, CACHE_KEY[name]
+    return MUT_MODEL[kind], var_id(name)
+
+
 def grid_mutators(g, rng, thorough):
     """the mutators applicable to the grid in its present state, as (kind, name) pairs"""
     present = sorted(g.coordinates | g.connectivity | g.descriptors)
@@ -757,6 +789,7 @@ def grid_mutators(g, rng, thorough):
         if n in present:
             out.append(("setter", n))
     out += [("gattr", ""), ("face_centers", "cartesian average"), ("normalize", "")]
+    out += CACHE_OPS
     if thorough:
         out += [("face_centers", "welzl"), ("chunk", "")]
     return out
@@ -812,6 +845,25 @@ def apply_grid_mut(g, kind, name, step):
         g.normalize_cartesian_coordinates()
     elif kind == "chunk":
         g.chunk(n_node=2, n_edge=2, n_face=2)
+    elif kind == "tree":
+        t, k = name.split(":")
+        return (g.get_ball_tree(coordinates=k) if t == "ball" else g.get_kd_tree(coordinates=k)) is not None
+    elif kind == "subset":
+        q, k = name.split(":")
+        pt = (float(g.node_lon.values[step % g.n_node]), float(g.node_lat.values[step % g.n_node]))
+        if q == "nn":
+            g.subset.nearest_neighbor(pt, k=2, element=k)
+        else:
+            g.subset.bounding_circle(pt, 60.0, element=k)
+    elif kind == "geo":
+        dict(gdf=g.to_geodataframe, poly=g.to_polycollection, line=g.to_linecollection)[name]()
+    elif kind == "remap":
+        import uxarray as ux
+
+        dest = ux.Grid.from_topology(node_lon=np.asarray(g.node_lon.values) * 1.0, node_lat=np.asarray(g.node_lat.values) * 1.0,
+                                     face_node_connectivity=np.array(g.face_node_connectivity.values), fill_value=INT_FILL)
+        da = ux.UxDataArray(np.arange(g.n_node, dtype=float), dims=["n_node"], uxgrid=g, name="c19_src")
+        da.remap.nearest_neighbor(dest, remap_to="nodes")
     else:
         raise ValueError(kind)
     return True
@@ -886,8 +938,11 @@ def var_id(name):
 # --------------------------------------------------------------------------------------
 
 
-def model_run(ctx, as_is, kind, flags, copy_api, export_api, prog):
-    toks = [1 if as_is else 0, kind, flags, copy_api, export_api, len(prog)]
+def model_run(ctx, as_is, kind, flags, copy_api, export_api, prog, pre=()):
+    toks = [1 if as_is else 0, kind, flags, copy_api, export_api, len(pre)]
+    for s, k, v in pre:
+        toks += [s, k, v]
+    toks.append(len(prog))
     for s, k, v in prog:
         toks += [s, k, v]
     t = common.Tok(ctx.driver.ask("C19.model", *toks))
@@ -1040,11 +1095,38 @@ def build_base_grid(m, rng, source):
 
 
 def warm(g, rng, names):
-    for n in names:
+    """materialise state before the copy / export: a name derives a variable, a [kind, name] pair fills a cache"""
+    done, pre = [], []
+    for i, n in enumerate(names):
         try:
-            getattr(g, n)
+            if isinstance(n, str):
+                mk = (0, var_id(n))
+                getattr(g, n)
+            else:
+                mk = model_kind(g, n[0], n[1])
+                apply_grid_mut(g, n[0], n[1], i)
+            done.append(n)
+            pre.append((0,) + tuple(mk))
         except Exception:
             pass
+    return done, pre
+
+
+def identity_audit(a, b, path="", depth=0):
+    """attributes of two grids that ARE the same mutable object (dicts are searched recursively)"""
+    out = []
+    da, db = (a if isinstance(a, dict) else vars(a)), (b if isinstance(b, dict) else vars(b))
+    for k in da:
+        if k not in db:
+            continue
+        x, y = da[k], db[k]
+        if _is_imm(x):
+            continue
+        if x is y:
+            out.append(f"{path}/{k}:{type(x).__name__}")
+        elif isinstance(x, dict) and isinstance(y, dict) and depth < 4:
+            out += identity_audit(x, y, f"{path}/{k}", depth + 1)
+    return out
 
 
 COPY_APIS = ["Grid.copy", "UxDataArray.copy(deep=True)", "copy.deepcopy"]
@@ -1067,7 +1149,10 @@ def scenario_copy(ctx, m, api, source, warm_names, history=None, tag="gen"):
     rng = ctx.rng
     inp = dict(family="copy", mesh=mesh_in(m), api=api, source=source, warm=list(warm_names))
     g = build_base_grid(m, rng, source)
-    warm(g, rng, warm_names)
+    done, pre = warm(g, rng, warm_names)
+    for n in done:
+        if not isinstance(n, str):
+            ctx.hit(f"cache-before-copy:{n[0]}")
     try:
         c, keep = make_copy(g, api, m)
     except Exception as e:
@@ -1080,6 +1165,11 @@ def scenario_copy(ctx, m, api, source, warm_names, history=None, tag="gen"):
     api_code = COPY_APIS.index(api)
     ctx.hit(f"copy:{api}")
     ctx.hit(f"copy-source:{source}")
+    # identity audit: no mutable attribute of the copy IS the original's object
+    same = identity_audit(g, c)
+    if same and v == "sep":
+        ctx.mismatch("C19/graph-misses-identical-attribute", dict(inp, history=[]), dict(identical=same), dict(judge="sep"))
+    ctx.hit("identity-audit:clean" if not same else "identity-audit:shared")
     # the copy reports what the original reports
     og, oc = pub_obs(g), pub_obs(c)
     shared_kind = None
@@ -1087,8 +1177,9 @@ def scenario_copy(ctx, m, api, source, warm_names, history=None, tag="gen"):
         shared_kind = describe_cell(G, x)
         sig = f"C19/copy/{api}/shared-{shared_kind}"
         ctx.fail(sig, f"{api}: the copy and the original share the {shared_kind} at {path_str(pa)} (original) = {path_str(pb)} (copy)",
-                 dict(inp, history=[]), dict(shared=shared_kind, path_original=path_str(pa), path_copy=path_str(pb)),
-                 dict(repaired_model="sep", as_is_model=["sep", "shared", "unknown"][model_run(ctx, True, 0, 0, api_code, -1, [])["copy"]]),
+                 dict(inp, history=[]), dict(shared=shared_kind, path_original=path_str(pa), path_copy=path_str(pb), identical_attributes=same),
+                 dict(repaired_model=["sep", "shared", "unknown"][model_run(ctx, False, 0, 0, api_code, -1, [], pre)["copy"]],
+                      as_is_model=["sep", "shared", "unknown"][model_run(ctx, True, 0, 0, api_code, -1, [], pre)["copy"]]),
                  ["copy_disjoint"])
     if obs_diff(og, oc):
         ctx.fail(f"C19/copy/{api}/copy-differs", f"{api}: the copy reports different values for {obs_diff(og, oc)}",
@@ -1108,6 +1199,7 @@ def scenario_copy(ctx, m, api, source, warm_names, history=None, tag="gen"):
         other = 1 - side
         o_before = pub_obs(sides[other])
         H = G.snapshot()  # after the observation: whatever a getter does to its own grid is not this step's doing
+        mk = model_kind(sides[side], k, nm)
         try:
             if not apply_grid_mut(sides[side], k, nm, step):
                 continue
@@ -1116,20 +1208,20 @@ def scenario_copy(ctx, m, api, source, warm_names, history=None, tag="gen"):
             H = G.snapshot()
             continue
         hist.append([side, k, nm])
-        prog.append((side, MUT_MODEL[k], var_id(nm)))
+        prog.append((side,) + tuple(mk))
         ctx.hit(f"mut:{k}")
         H2 = G.snapshot()
         fv, fx, fp = lean_frame(ctx, H, H2, roots[other])
         od = obs_diff(o_before, pub_obs(sides[other]))
         own_changed = lean_frame(ctx, H, H2, roots[side])[0] == "changed"
         ctx.hit("step-effective" if own_changed else "step-noop")
-        ctx.case(("copy-step", api, source, tuple(warm_names), m.key(), tuple(map(tuple, hist))), nontrivial=own_changed)
+        ctx.case(("copy-step", api, source, str(warm_names), m.key(), tuple(map(tuple, hist))), nontrivial=own_changed)
         if fv == "changed" or od:
             who = ["original", "copy"]
             cell = describe_cell(G, fx)
             sig = (f"C19/copy/{api}/shared-{shared_kind}" if shared_kind else f"C19/copy/{api}/not-independent/{k}")
-            pm = model_run(ctx, False, 0, 0, api_code, -1, prog)
-            pa_ = model_run(ctx, True, 0, 0, api_code, -1, prog)
+            pm = model_run(ctx, False, 0, 0, api_code, -1, prog, pre)
+            pa_ = model_run(ctx, True, 0, 0, api_code, -1, prog, pre)
             ctx.fail(sig, f"{api}: {k}({nm}) on the {who[side]} changes the {who[other]}: "
                      f"{('cell ' + cell + ' at ' + path_str(fp)) if fv == 'changed' else ''} public observation differs for {od}",
                      dict(inp, history=hist), dict(step=[side, k, nm], changed_cell=cell, observation_differs=od),
@@ -1138,7 +1230,7 @@ def scenario_copy(ctx, m, api, source, warm_names, history=None, tag="gen"):
             return
         H = H2
     # the same abstract history in the Lean model: the code may alias no more than the model does
-    pm = model_run(ctx, False, 0, 0, api_code, -1, prog)
+    pm = model_run(ctx, False, 0, 0, api_code, -1, prog, pre)
     model_other_changed = [i for i, (st, pr) in enumerate(zip(pm["steps"], prog)) if st[1 - pr[0]] == 1]
     if pm["copy"] == 0 and not model_other_changed:
         ctx.hit("model-agrees:copy-independent")
@@ -1150,6 +1242,108 @@ def scenario_copy(ctx, m, api, source, warm_names, history=None, tag="gen"):
         if v2 != "sep":
             ctx.fail(f"C19/copy/{api}/aliased-by-history", f"{api}: after the history the two grids share a {describe_cell(G, x2)}",
                      dict(inp, history=hist), dict(path_original=path_str(pa2), path_copy=path_str(pb2)), None, ["copy_independent"])
+
+
+def tree_answers(g, pts, order):
+    """what the grid's nearest-neighbour trees answer, kind by kind (the first entry without a switch of kind)"""
+    out = []
+    for t, k in order:
+        try:
+            tree = g.get_ball_tree(coordinates=k) if t == "ball" else g.get_kd_tree(coordinates=k)
+            n = {"nodes": g.n_node, "face centers": g.n_face, "edge centers": g.n_edge}[k]
+            kk = min(3, n)
+            res = []
+            for pt in pts:
+                q = np.array([pt]) if t == "ball" else np.array([meshes._ll(*pt)])
+                d, ind = tree.query(q, k=kk)
+                res.append((np.round(np.asarray(d, dtype=float), 9).ravel().tolist(), np.asarray(ind).ravel().tolist()))
+            out.append((t, k, res))
+        except Exception as e:
+            out.append((t, k, "raises " + type(e).__name__))
+    return out
+
+
+def scenario_copy_trees(ctx, m, api, source, direction, warm_ops=None, muts=None, tag="gen"):
+    """caches built BEFORE the copy; one side is then mutated through public setters and tree switches; the OTHER
+    side's trees (and tree objects obtained earlier) must answer like those of a twin grid built from the same input"""
+    rng = ctx.rng
+    if warm_ops is None:
+        warm_ops = [list(x) for x in rng.sample([c for c in CACHE_OPS if c[0] != "geo"], rng.randint(1, 3))]
+        if rng.random() < 0.4:
+            warm_ops.append(list(rng.choice([c for c in CACHE_OPS if c[0] == "geo"])))
+    inp = dict(family="copy-trees", mesh=mesh_in(m), api=api, source=source, direction=direction, warm=warm_ops)
+    g, twin = build_base_grid(m, rng, source), build_base_grid(m, rng, source)
+    done, pre = warm(g, rng, warm_ops)
+    warm(twin, rng, done)
+    held = {t: vars(g).get(a) for t, a in CACHE_ATTR.items()}  # tree objects a caller obtained from the original
+    held_kind = {t: (o._coordinates if o is not None else None) for t, o in held.items()}
+    try:
+        c, keep = make_copy(g, api, m)
+    except Exception as e:
+        ctx.hit(f"copy:{api}:raises:{type(e).__name__}")
+        return
+    G = Graph()
+    rg, rc = G.register(g), G.register(c)
+    H = G.snapshot()
+    v, x, pa, pb = lean_judge(ctx, H, rg, rc)
+    same = identity_audit(g, c)
+    api_code = COPY_APIS.index(api)
+    ctx.hit(f"copy-trees:{api}:{direction}")
+    for n in done:
+        ctx.hit(f"cache-before-copy:{n[0]}")
+    if same and v == "sep":
+        ctx.mismatch("C19/graph-misses-identical-attribute", dict(inp, muts=[]), dict(identical=same), dict(judge="sep"))
+    shared_kind = describe_cell(G, x) if v == "shared" else None
+    if v == "shared":
+        ctx.fail(f"C19/copy/{api}/shared-{shared_kind}",
+                 f"{api}: the copy and the original share the {shared_kind} at {path_str(pa)} (original) = {path_str(pb)} (copy); identical attributes {same}",
+                 dict(inp, muts=[]), dict(shared=shared_kind, path_original=path_str(pa), path_copy=path_str(pb), identical_attributes=same),
+                 dict(repaired_model=["sep", "shared", "unknown"][model_run(ctx, False, 0, 0, api_code, -1, [], pre)["copy"]]),
+                 ["copy_disjoint"])
+    sides = dict(original=g, copy=c)
+    mutated, untouched = (("original", "copy") if direction == "original->copy" else ("copy", "original"))
+    M, U = sides[mutated], sides[untouched]
+    if muts is None:
+        menu = [("setter", "node_lon"), ("setter", "node_lat"), ("setter", "face_lon"), ("face_centers", "cartesian average"),
+                ("derive", "face_lon"), ("derive", "edge_lon"), ("setter", "node_x")] + [c_ for c_ in CACHE_OPS if c_[0] == "tree"]
+        muts = [list(rng.choice(menu)) for _ in range(ctx.n(4, 8))]
+    applied = []
+    o_before = pub_obs(U)
+    H = G.snapshot()
+    for step, (k, nm) in enumerate(muts):
+        try:
+            if k == "setter" and nm not in (M.coordinates | M.connectivity):
+                getattr(M, nm)
+            if apply_grid_mut(M, k, nm, step):
+                applied.append([k, nm])
+                ctx.hit(f"mut:{k}")
+        except Exception as e:
+            ctx.hit(f"mutator-raises:{k}:{type(e).__name__}")
+    H2 = G.snapshot()
+    ctx.case(("copy-trees", api, source, direction, str(done), m.key(), str(applied)), nontrivial=bool(applied) and bool(done))
+    fv, fx, fp = lean_frame(ctx, H, H2, G.addr[id(U)])
+    od = obs_diff(o_before, pub_obs(U))
+    pts = [(float(m.lon[i % m.n_node]) * 0.9 + 1.0, float(m.lat[i % m.n_node]) * 0.9) for i in (0, 2, 3)]
+    # the untouched side first WITHOUT a switch (the kind its tree — or the twin's — last answered for), then every kind
+    order = [(t, held_kind[t]) for t in ("ball", "kd") if held_kind[t]] + [(t, k) for t in ("ball", "kd") for k in TREE_KINDS]
+    got, want = tree_answers(U, pts, order), tree_answers(twin, pts, order)
+    held_switched = [t for t, o in held.items() if untouched == "original" and o is not None and o._coordinates != held_kind[t]
+                     and (t, o._coordinates) not in order[: order.index((t, held_kind[t])) + 1]]
+    bad = []
+    if fv == "changed":
+        bad.append(f"cell {describe_cell(G, fx)} at {path_str(fp)} of the {untouched} changed")
+    if od:
+        bad.append(f"the {untouched}'s public observation differs for {od}")
+    diff = [(t, k) for (t, k, a), (_, _, b) in zip(got, want) if a != b]
+    if diff:
+        bad.append(f"the {untouched}'s trees answer differently from a twin grid built from the same input for {diff}")
+    if bad:
+        sig = f"C19/copy/{api}/shared-{shared_kind}" if shared_kind else f"C19/copy/{api}/caches-not-independent"
+        ctx.fail(sig, f"{api}: after {applied} on the {mutated}: " + "; ".join(bad), dict(inp, muts=applied),
+                 dict(differs=diff, frame=fv, observation_differs=od), dict(repaired_model="independent (grid_copy_independent_caches)"),
+                 ["copy_independent"])
+    else:
+        ctx.hit("trees-agree-with-twin")
 
 
 EXPORT_APIS = {
@@ -1321,7 +1515,14 @@ def run(ctx):
             m = rng.choice(ms)
             k = rng.randrange(0, 5)
             warm_names = rng.sample(DERIVE[:8], k)
+            # helper objects cached on the grid (trees, GeoDataFrame / collections) built before the copy
+            warm_names += [list(x) for x in rng.sample(CACHE_OPS, rng.choice([0, 1, 2, 3]))]
+            rng.shuffle(warm_names)
             scenario_copy(ctx, m, api, rng.choice(sources), warm_names)
+    for rep in range(ctx.n(4, 20)):
+        for api in COPY_APIS:
+            for direction in ("original->copy", "copy->original"):
+                scenario_copy_trees(ctx, rng.choice(ms), api, rng.choice(sources), direction)
     timing["copy"] = round(time.time() - t0, 1)
     t0 = time.time()
     # (c) exports
@@ -1342,6 +1543,9 @@ def replay(ctx, rp):
     fam = inp["family"]
     if fam == "build":
         scenario_build(ctx, m, inp["spec"], history=[tuple(h) for h in inp["history"]] if "history" in inp else None, tag="replay")
+    elif fam == "copy-trees":
+        scenario_copy_trees(ctx, m, inp["api"], inp["source"], inp["direction"], warm_ops=[list(x) for x in inp["warm"]],
+                            muts=[list(x) for x in inp.get("muts", [])], tag="replay")
     elif fam == "copy":
         hist = [tuple(h) for h in inp.get("history", [])]
         scenario_copy(ctx, m, inp["api"], inp["source"], inp.get("warm", []), history=hist, tag="replay")
